@@ -1,17 +1,309 @@
-//! C05 — correspondence driver (stub: not built yet).
+//! C05 — forward-mode differentiation: the programs of C04 executed with `Trace<Fp>` /
+//! `Trace<Rat>`, once per input (that input being `Trace::variable`, the others constants), every
+//! operator in every ownership / operand-kind form; on `derivs` lines the same program run with
+//! records on a tape is differentiated in reverse mode and compared.
+//!
+//! Line protocol: lean/Driver/Prog.lean, lean/Driver/C05.lean.
 
+use crate::c04::*;
+use crate::exact::{Fp, Rat};
 use crate::util::*;
+use crate::{op2, op4};
+use easy_ml::differentiation::{Primitive, Trace};
+use easy_ml::numeric::extra::{Cos, Exp, Ln, Pi, Pow, Sin, Sqrt};
+use easy_ml::numeric::{FromUsize, Numeric, NumericRef, ZeroOne};
+use std::ops::{Add, Div, Mul, Neg, Sub};
 
-pub fn gen(_g: &mut Gen) {}
+pub fn gen(g: &mut Gen) {
+    let (n_fp, n_rat) = if g.thorough { (20000, 4000) } else { (1000, 300) };
+    for line in [
+        "@ trace fp", "var r0 5 via=record", "const r1 7 via=constant", "cos r2 r0 via=ref",
+        "divn r3 r0 7 via=ref_ref", "npow r4 7 r0 via=ref_ref", "pow r5 r0 r0 via=ref_ref",
+        "neg r6 r0 via=val", "subsw r7 r0 9 via=ref_ref", "divsw r8 r0 9 via=val_val", "derivs r8",
+    ] {
+        g.op(line.to_string());
+    }
+    for _ in 0..n_fp {
+        gen_program(g, Kind::Fp, "c05.fp", "@ trace fp", 30);
+    }
+    for _ in 0..n_rat {
+        gen_program(g, Kind::Rat, "c05.rat", "@ trace rat", 10);
+    }
+}
 
-pub struct Runner;
+/// One run of the program with traces: `vals[k]` is the trace of instruction `k`.
+/// `seed`: position of the input that is the `Trace::variable`.
+fn trace_arith<T>(vals: &[Trace<T>], names: &Names, toks: &[&str], seed: Option<usize>) -> Option<Trace<T>>
+where
+    T: Numeric + Primitive + El,
+    for<'a> &'a T: NumericRef<T>,
+{
+    let via = opt_arg("via", toks).unwrap_or("");
+    let tr = |s: &str| &vals[names[s]];
+    let r = match toks[0] {
+        "const" => {
+            let v = T::parse(toks[2]);
+            match via {
+                "zero" => <Trace<T> as ZeroOne>::zero(),
+                "one" => <Trace<T> as ZeroOne>::one(),
+                "from_usize" => <Trace<T> as FromUsize>::from_usize(toks[2].parse().unwrap()).unwrap(),
+                _ => Trace::constant(v),
+            }
+        }
+        "var" => {
+            let v = T::parse(toks[2]);
+            if seed == Some(vals.len()) {
+                match via {
+                    // the two ways of making the variable: constructor and struct literal
+                    "list" => Trace { number: v, derivative: T::one() },
+                    _ => Trace::variable(v),
+                }
+            } else {
+                Trace::constant(v)
+            }
+        }
+        "add" => { let (a, b) = (tr(toks[2]), tr(toks[3])); op4!(via, a, b, Add::add) }
+        "sub" => { let (a, b) = (tr(toks[2]), tr(toks[3])); op4!(via, a, b, Sub::sub) }
+        "mul" => { let (a, b) = (tr(toks[2]), tr(toks[3])); op4!(via, a, b, Mul::mul) }
+        "div" => { let (a, b) = (tr(toks[2]), tr(toks[3])); op4!(via, a, b, Div::div) }
+        "addn" => { let (a, b) = (tr(toks[2]), &T::parse(toks[3])); op4!(via, a, b, Add::add) }
+        "subn" => { let (a, b) = (tr(toks[2]), &T::parse(toks[3])); op4!(via, a, b, Sub::sub) }
+        "muln" => { let (a, b) = (tr(toks[2]), &T::parse(toks[3])); op4!(via, a, b, Mul::mul) }
+        "divn" => { let (a, b) = (tr(toks[2]), &T::parse(toks[3])); op4!(via, a, b, Div::div) }
+        // there is no `number - trace`: "you can just lift a constant to a Trace with ease"
+        "subsw" => {
+            let (a, b) = (&Trace::constant(T::parse(toks[3])), tr(toks[2]));
+            op4!(via, a, b, Sub::sub)
+        }
+        "divsw" => {
+            let (a, b) = (&Trace::constant(T::parse(toks[3])), tr(toks[2]));
+            op4!(via, a, b, Div::div)
+        }
+        "neg" => { let a = tr(toks[2]); op2!(via, a, Neg::neg) }
+        "sum" => {
+            let items: Vec<Trace<T>> = split_comma(toks[2]).iter().map(|s| tr(s).clone()).collect();
+            items.into_iter().sum::<Trace<T>>()
+        }
+        "unary" => {
+            let a = tr(toks[2]);
+            let (f, df) = unary_fn::<T>(opt_arg("fn", toks).unwrap());
+            a.unary(f, df)
+        }
+        "binary" => {
+            let (a, b) = (tr(toks[2]), tr(toks[3]));
+            let (f, dfx, dfy) = binary_fn::<T>(opt_arg("fn", toks).unwrap());
+            a.binary(b, f, dfx, dfy)
+        }
+        _ => return None,
+    };
+    Some(r)
+}
+
+fn trace_real(vals: &[Trace<Fp>], names: &Names, toks: &[&str]) -> Option<Trace<Fp>> {
+    let via = opt_arg("via", toks).unwrap_or("");
+    let tr = |s: &str| &vals[names[s]];
+    let r = match toks[0] {
+        "const" if via == "pi" => <Trace<Fp> as Pi>::pi(),
+        "sin" => { let a = tr(toks[2]); op2!(via, a, Sin::sin) }
+        "cos" => { let a = tr(toks[2]); op2!(via, a, Cos::cos) }
+        "exp" => { let a = tr(toks[2]); op2!(via, a, Exp::exp) }
+        "ln" => { let a = tr(toks[2]); op2!(via, a, Ln::ln) }
+        "sqrt" => { let a = tr(toks[2]); op2!(via, a, Sqrt::sqrt) }
+        "pow" => { let (a, b) = (tr(toks[2]), tr(toks[3])); op4!(via, a, b, Pow::pow) }
+        "pown" => { let (a, b) = (tr(toks[2]), &Fp::parse(toks[3])); op4!(via, a, b, Pow::pow) }
+        "npow" => { let (a, b) = (&Fp::parse(toks[2]), tr(toks[3])); op4!(via, a, b, Pow::pow) }
+        _ => return None,
+    };
+    Some(r)
+}
+
+/// Element types of the trace runs: how one instruction is executed.
+trait TraceEl: Numeric + Primitive + El {
+    fn instr(vals: &[Trace<Self>], names: &Names, toks: &[&str], seed: Option<usize>) -> Option<Trace<Self>>;
+    fn rec_instr(c: &CaseG<Self>, toks: &[&str]) -> Option<Result<Rc<Self>, PanicKind>>;
+    fn derivs(c: &CaseG<Self>, toks: &[&str]) -> String;
+}
+impl TraceEl for Fp {
+    fn instr(vals: &[Trace<Fp>], names: &Names, toks: &[&str], seed: Option<usize>) -> Option<Trace<Fp>> {
+        trace_real(vals, names, toks).or_else(|| trace_arith::<Fp>(vals, names, toks, seed))
+    }
+    fn rec_instr(c: &CaseG<Fp>, toks: &[&str]) -> Option<Result<Rc<Fp>, PanicKind>> {
+        real_instr(c, toks).or_else(|| arith_instr::<Fp>(c, toks, 0))
+    }
+    fn derivs(c: &CaseG<Fp>, toks: &[&str]) -> String {
+        derivs_line::<Fp>(c, toks)
+    }
+}
+impl TraceEl for Rat {
+    fn instr(vals: &[Trace<Rat>], names: &Names, toks: &[&str], seed: Option<usize>) -> Option<Trace<Rat>> {
+        trace_arith::<Rat>(vals, names, toks, seed)
+    }
+    fn rec_instr(c: &CaseG<Rat>, toks: &[&str]) -> Option<Result<Rc<Rat>, PanicKind>> {
+        arith_instr::<Rat>(c, toks, 0)
+    }
+    fn derivs(c: &CaseG<Rat>, toks: &[&str]) -> String {
+        derivs_line::<Rat>(c, toks)
+    }
+}
+
+struct CaseT<T: TraceEl> {
+    /// the same program with records on a tape
+    rec: CaseG<T>,
+    /// the instruction lines so far (a new input replays them)
+    lines: Vec<Vec<String>>,
+    /// per input: (position, traces of the run in which it is the variable)
+    runs: Vec<(usize, Vec<Trace<T>>)>,
+}
+
+impl<T: TraceEl> CaseT<T> {
+    fn new() -> CaseT<T> {
+        CaseT { rec: CaseG::new(1), lines: vec![], runs: vec![] }
+    }
+
+    /// the whole program so far with input `seed` as the variable
+    fn replay(&self, seed: usize) -> Vec<Trace<T>> {
+        let mut vals: Vec<Trace<T>> = vec![];
+        for l in &self.lines {
+            let toks: Vec<&str> = l.iter().map(|s| s.as_str()).collect();
+            let t = T::instr(&vals, &self.rec.names, &toks, Some(seed)).expect("replay");
+            vals.push(t);
+        }
+        vals
+    }
+
+    fn instr(&mut self, toks: &[&str]) -> String {
+        let pos = self.rec.recs.len();
+        // records first (keeps the name table)
+        let r = match T::rec_instr(&self.rec, toks) {
+            Some(Ok(r)) => r,
+            Some(Err(k)) => return panic_str(k),
+            None => return "bad-op".into(),
+        };
+        let value = r.number.clone();
+        // traces: every existing run, before the name of this result is known
+        let mut new_vals = vec![];
+        for (seed, vals) in &self.runs {
+            match catch(|| T::instr(vals, &self.rec.names, toks, Some(*seed))) {
+                Ok(Some(t)) => new_vals.push(t),
+                Ok(None) => return "bad-op".into(),
+                Err(k) => return panic_str(k),
+            }
+        }
+        for ((_, vals), t) in self.runs.iter_mut().zip(new_vals) {
+            vals.push(t);
+        }
+        if toks[0] == "var" {
+            self.rec.vars.push(pos);
+        }
+        self.rec.names.insert(toks[1].to_string(), pos);
+        self.rec.recs.push(r);
+        self.lines.push(toks.iter().map(|s| s.to_string()).collect());
+        if toks[0] == "var" {
+            let vals = self.replay(pos);
+            self.runs.push((pos, vals));
+        }
+        let mut same_value = true;
+        let ds: Vec<T> = self
+            .runs
+            .iter()
+            .map(|(_, vals)| {
+                same_value &= vals[pos].number == value;
+                vals[pos].derivative.clone()
+            })
+            .collect();
+        format!("v={} d={}{}", value, show_list(&ds), if same_value { "" } else { " VALUES-DIFFER" })
+    }
+
+    fn derivs(&self, toks: &[&str]) -> String {
+        let k = self.rec.names[toks[1]];
+        let fwd: Vec<T> = self.runs.iter().map(|(_, vals)| vals[k].derivative.clone()).collect();
+        // `Trace::derivative(function, x)`: the whole program as a function of its first input
+        let mut via_fn = true;
+        if let Some((seed, vals)) = self.runs.first() {
+            let x = vals[*seed].number.clone();
+            let d = Trace::derivative(
+                |t: Trace<T>| {
+                    let mut vs: Vec<Trace<T>> = vec![];
+                    for (i, l) in self.lines.iter().enumerate() {
+                        let tk: Vec<&str> = l.iter().map(|s| s.as_str()).collect();
+                        if i == *seed {
+                            vs.push(t.clone());
+                        } else {
+                            vs.push(T::instr(&vs, &self.rec.names, &tk, None).expect("replay"));
+                        }
+                    }
+                    vs[k].clone()
+                },
+                x,
+            );
+            via_fn = d == fwd[0];
+        }
+        let line = T::derivs(&self.rec, &["derivs", toks[1], "via=vec"]);
+        let fn_note = if via_fn { "" } else { " DERIVATIVE-FN-DIFFERS" };
+        if line == "panic(explicit)" {
+            // reverse mode reports nothing for a constant: forward must report zeros
+            let zero = T::zero();
+            return if fwd.iter().all(|d| *d == zero) {
+                format!("fwdrev=ok const{}", fn_note)
+            } else {
+                format!("fwdrev=DIFF const fwd={}", show_list(&fwd))
+            };
+        }
+        let rev = line.split(" ## ").next().unwrap().trim_start_matches("d=").to_string();
+        if rev == show_list(&fwd) {
+            format!("fwdrev=ok d={}{}", rev, fn_note)
+        } else {
+            format!("fwdrev=DIFF d={} rev={}", show_list(&fwd), rev)
+        }
+    }
+
+    fn step(&mut self, toks: &[&str]) -> String {
+        let is_derivs = toks[0].ends_with("derivs");
+        if !refs_ok(&self.rec.names, toks, if is_derivs { 1 } else { 2 }) {
+            return "bad-ref".into();
+        }
+        if is_derivs {
+            match catch(|| self.derivs(toks)) {
+                Ok(s) => s,
+                Err(k) => panic_str(k),
+            }
+        } else {
+            self.instr(toks)
+        }
+    }
+}
+
+enum Case {
+    None,
+    Fp(CaseT<Fp>),
+    Rat(CaseT<Rat>),
+}
+
+pub struct Runner {
+    case: Case,
+}
 
 impl Runner {
     pub fn new() -> Runner {
-        Runner
+        Runner { case: Case::None }
     }
 
-    pub fn step(&mut self, _toks: &[&str]) -> String {
-        "unimplemented".into()
+    pub fn step(&mut self, toks: &[&str]) -> String {
+        if toks.is_empty() {
+            return "bad-op".into();
+        }
+        if toks[0] == "@" {
+            self.case = Case::None;
+            self.case = match toks.get(2) {
+                Some(&"rat") => Case::Rat(CaseT::new()),
+                _ => Case::Fp(CaseT::new()),
+            };
+            return "ok".into();
+        }
+        match &mut self.case {
+            Case::None => "bad-op".into(),
+            Case::Fp(c) => c.step(toks),
+            Case::Rat(c) => c.step(toks),
+        }
     }
 }
